@@ -7,6 +7,7 @@ import (
 	"saoverif/chain"
 
 	modeltypes "github.com/SaoNetwork/sao/x/model/types"
+	nodetypes "github.com/SaoNetwork/sao/x/node/types"
 	ordertypes "github.com/SaoNetwork/sao/x/order/types"
 	"pgregory.net/rapid"
 )
@@ -475,3 +476,102 @@ func (s *Sim) DrainAll(maxBlocks int64) {
 }
 
 var _ = sort.Ints
+
+// ---- hostile value grammars (adversarial but well-typed message fields) ----
+
+var hostileSizes = []uint64{0, 1, 999_999, 1_000_000, 1_000_001, 1 << 31, 1<<63 - 1, 1 << 63, ^uint64(0)}
+
+// GenStoreHostile: a store whose numeric fields come from the hostile grammar.
+func (cfg *LifeCfg) GenStoreHostile(t *rapid.T, s *Sim) *Action {
+	a := cfg.GenStoreNew(t, s)
+	if a == nil {
+		a = cfg.GenStoreUpdate(t, s)
+	}
+	if a == nil {
+		return nil
+	}
+	n := len(cfg.Providers)
+	switch rapid.IntRange(0, 5).Draw(t, "hostileField") {
+	case 0:
+		a.Replica = int32(rapid.SampledFrom([]int{-1, 0, 1, 2, n - 1, n, n + 1, 1 << 30}).Draw(t, "hReplica"))
+	case 1:
+		a.Timeout = int32(rapid.SampledFrom([]int{-1, -1 << 31, 1, 2, 3599, 3600, 1 << 30}).Draw(t, "hTimeout"))
+	case 2:
+		a.Size = rapid.SampledFrom(hostileSizes).Draw(t, "hSize")
+	case 3:
+		a.Duration = rapid.SampledFrom([]uint64{0, 3599, 3600, 1 << 40, 1<<63 - 1, ^uint64(0)}).Draw(t, "hDuration")
+	case 4:
+		a.Commit = rapid.SampledFrom([]string{"|", "|" + a.DataId, a.DataId + "|", a.DataId + "|" + a.DataId + "|x", "x|y|z", a.DataId[:35]}).Draw(t, "hCommit")
+	case 5:
+		a.Op = uint32(rapid.SampledFrom([]int{0, 2, 3, 1 << 31}).Draw(t, "hOp"))
+	}
+	return a
+}
+
+// GenSeed sets the selection seed (header AppHash) of the next block.
+func (cfg *LifeCfg) GenSeed(t *rapid.T, s *Sim) *Action {
+	a := NewAction("seed", 0)
+	a.SeedSet = true
+	switch rapid.IntRange(0, 4).Draw(t, "seedClass") {
+	case 0:
+		a.Seed = []byte{}
+	case 1:
+		a.Seed = []byte{byte(rapid.IntRange(0, 255).Draw(t, "seedByte"))}
+	case 2:
+		a.Seed = make([]byte, 32)
+	case 3:
+		a.Seed = []byte{0, 0, 0, byte(rapid.IntRange(0, 255).Draw(t, "seedByte"))}
+	default:
+		a.Seed = rapid.SliceOfN(rapid.Byte(), 32, 32).Draw(t, "seed")
+	}
+	return a
+}
+
+// GenVstorage adds or removes capacity with sizes around the per-coin rounding boundary.
+func (cfg *LifeCfg) GenVstorage(t *rapid.T, s *Sim) *Action {
+	p := rapid.SampledFrom(cfg.Providers).Draw(t, "sp")
+	kind := rapid.SampledFrom([]string{"add_vstorage", "remove_vstorage"}).Draw(t, "vkind")
+	a := NewAction(kind, p)
+	k := uint64(rapid.IntRange(0, 50).Draw(t, "k"))
+	d := rapid.SampledFrom([]int64{-1, 0, 1, 999_999, 500_000}).Draw(t, "d")
+	sz := int64(k*1_000_000) + d
+	if sz < 0 {
+		sz = 1
+	}
+	if rapid.IntRange(0, 9).Draw(t, "huge") == 0 {
+		sz = rapid.SampledFrom([]int64{1 << 31, 1 << 40, 1<<63 - 1}).Draw(t, "hugeSize")
+	}
+	a.Size = uint64(sz)
+	return a
+}
+
+// GenBankDrain moves most of a provider's balance away (so that collateral cannot be afforded) or back.
+func (cfg *LifeCfg) GenBankDrain(t *rapid.T, s *Sim) *Action {
+	p := rapid.SampledFrom(cfg.Providers).Draw(t, "sp")
+	a := NewAction("bank_send", p)
+	a.Target = 11
+	bal := s.Last.Bal[s.bech(p)]
+	if rapid.Bool().Draw(t, "refill") {
+		a.Creator, a.Target = 11, p
+		a.Amount = rapid.Int64Range(1, 1_000_000_000).Draw(t, "amount")
+		return a
+	}
+	if !bal.IsPositive() {
+		return nil
+	}
+	keep := rapid.Int64Range(0, 2000).Draw(t, "keep")
+	amt := bal.Int64() - keep
+	if amt <= 0 {
+		return nil
+	}
+	a.Amount = amt
+	return a
+}
+
+// GenResetNode changes a provider's declared status (eligibility input).
+func (cfg *LifeCfg) GenResetNode(t *rapid.T, s *Sim) *Action {
+	p := rapid.SampledFrom(cfg.Providers).Draw(t, "sp")
+	a := NewAction("node_reset", p)
+	a.Status = rapid.SampledFrom([]uint32{StatusFull, StatusFull, StatusFull &^ nodetypes.NODE_STATUS_ACCEPT_ORDER, StatusFull &^ nodetypes.NODE_STATUS_SERVE_STORAGE, nodetypes.NODE_STATUS_ONLINE, StatusFull | nodetypes.NODE_STATUS_SERVE_INDEXING}).Draw(t, "status")
+	return a
+}
